@@ -63,11 +63,37 @@ def one(ctx, kp, letter, alt, octave):
         ctx.nontriv(s)
 
 
+def shared_instances(ctx, kp, order_name, spellings):
+    """The same importer and exporter objects are reused for the whole grid (histories): the answer for a spelling must
+    not depend on what the instance converted before."""
+    imp = kp.HumdrumPitchImporter()
+    exp = kp.HumdrumPitchExporter()
+    for (letter, alt, octave) in spellings:
+        s = I.spell(letter, alt, octave)
+        ctx.ev()
+        ctx.mon('shared_instance_calls')
+        try:
+            p = imp.import_pitch(s)
+            before = (p.name, p.octave)
+            o1 = exp.export_pitch(p)
+            o2 = exp.export_pitch(p)
+        except Exception as e:
+            ctx.violation('shared-instance', f'[{order_name}] {s!r}: {type(e).__name__}: {e}', {'spelling': s, 'order': order_name})
+            continue
+        g = (p.name[:1], p.name.count('+') - p.name.count('-'), p.octave)
+        if g != (letter, alt, octave):
+            ctx.violation('shared-instance', f'[{order_name}] a reused importer read {s!r} as {g}', {'spelling': s, 'order': order_name})
+        if o1 != s or o2 != s or (p.name, p.octave) != before:
+            ctx.violation('shared-instance', f'[{order_name}] a reused exporter wrote {s!r} as {o1!r} then {o2!r} (depends on what it '
+                          f'exported before)', {'spelling': s, 'order': order_name})
+
+
 def run(ctx: Ctx):
     import kernpy as kp
     ctx.rule = ('exhaustive grid: 7 letters x alterations -3..+3 x octaves -1..9 (539 Humdrum spellings, lower case for '
                 'octave >= 4, upper case below): import gives (letter, alteration, octave); export returns the spelling; '
-                'name/octave of the pitch object snapshotted before and after export; exported twice. '
+                'name/octave of the pitch object snapshotted before and after export; exported twice; the whole grid again through ONE reused '
+                'importer and ONE reused exporter in grid, reverse and shuffled orders (history independence). '
                 'Non-trivial = spelling with an accidental; distinct by spelling.')
     ctx.assumptions = ['Humdrum spelling c=C4, cc=C5, C=C3, CC=C2']
     n = 0
@@ -78,6 +104,14 @@ def run(ctx: Ctx):
                 n += 1
                 if n % 97 == 3:
                     ctx.sample({'spelling': I.spell(letter, alt, octave), 'letter': letter, 'alteration': alt, 'octave': octave})
+    grid = [(l, a, o) for l in I.LETTERS for a in range(-3, 4) for o in range(-1, 10)]
+    from ..common import rng_for
+    shared_instances(ctx, kp, 'grid order', grid)
+    shared_instances(ctx, kp, 'reverse order', list(reversed(grid)))
+    for k in range(3 if ctx.tier == 'quick' else 12):
+        g2 = grid[:]
+        rng_for(ctx.seed, 'c16-order', k).shuffle(g2)
+        shared_instances(ctx, kp, f'shuffled order {k}', g2)
     ctx.exhaustive = True
     ctx.extra['grid_cases'] = n
     ctx.floors = {'grid': ('import_call', 539), 'double export': ('second_export', 500)}
